@@ -60,6 +60,7 @@ type E7Spec struct {
 	DirectOnly    []FuncRuleSpec     `json:"direct_children_only"`
 	StaleElement  []FuncRuleSpec     `json:"stale_element"`
 	DroppedError  []DroppedErrorSpec `json:"dropped_error"`
+	SaveRestore   []FuncRuleSpec     `json:"save_restore"`
 }
 
 type FuncRuleSpec struct {
@@ -224,6 +225,9 @@ func runE7(p *Program, sp *Spec, c *Collector) {
 	}
 	for _, de := range t.DroppedError {
 		runDroppedError(p, c, de)
+	}
+	for _, sr := range t.SaveRestore {
+		runSaveRestore(p, c, sr)
 	}
 	for _, n := range t.NoExit {
 		runNoExit(p, sp, c, n)
